@@ -8,7 +8,8 @@ Record sub_obs := {
   o_ret : N;                             (* when it returned *)
   o_nodes : list (list (N * list N));    (* per configured node, in input order: the calls it received
                                             as (time of the call, ids of the items), sorted by first id *)
-  o_cut : list (list (N * bool))         (* per configured node: the instants at which a request to it was
+  o_cut : list (list (N * bool))         (* per configured node: the instants at which a request to it
+                                            (payload or version request) was
                                             abandoned because the context the submitter made it with was
                                             finished (refused at entry / cut short in flight), and whether
                                             that request was scripted never to be answered (hang); the
@@ -52,7 +53,7 @@ Definition call_agrees (st : N) (call : N * N) (oc : N * list N) : bool :=
   (fst oc =? st) && list_eqb N.eqb (snd oc) (nseq (fst call) (snd call)).
 
 Definition view_agrees (v : node_view) (ocs : list (N * list N)) : bool :=
-  match v_start v with
+  match v_at v with
   | None => is_nil ocs
   | Some st => forall2b (call_agrees st) (v_calls v) ocs
   end.
@@ -110,22 +111,39 @@ Definition whole_payload (k : kind) (len : N) (ocs : list (N * list N)) : bool :
                  | _ => Nat.eqb (length ocs) 1 end)
   && (match ocs with [] => false | oc :: _ => forallb (fun oc' => fst oc' =? fst oc) ocs end).
 
-(* when the node finished and whether it counts as accepting, from the scripted behaviours of the
-   calls it was seen to receive: Some (t, ok) ; None = never finishes *)
+Definition is_rejection (b : beh) : bool := match b with BReply _ (RError _) => true | _ => false end.
+
+(* when vouch has the node's answer and whether the node counts as accepting, from the scripted
+   behaviours of the calls it was seen to receive: Some (t, ok) ; None = never.  A rejection counts
+   only "from that client": vouch has to know which client it is talking to, so a node that counts
+   by a tolerated rejection counts once its version endpoint has answered as well (n_ver2: the
+   scripted latency of a version request made after the payload was handed over). *)
 Definition node_finish (k : kind) (nd : node) (ocs : list (N * list N)) : option (N * bool) :=
   match ocs with
   | [] => None
   | oc :: _ =>
       let bs := map (fun oc' => obs_call_beh nd (snd oc')) ocs in
-      match fold_right omax (Some 0) (map beh_delay bs) with
-      | Some d => Some (fst oc + d, forallb (spec_call_ok k (n_client nd)) bs)
-      | None => None
+      let ok := forallb (spec_call_ok k (n_client nd)) bs in
+      let v2 := if ok && existsb is_rejection bs then n_ver2 nd else Some 0 in
+      match fold_right omax (Some 0) (map beh_delay bs), v2 with
+      | Some d, Some w => Some (fst oc + d + w, ok)
+      | _, _ => None
       end
   end.
 
 Definition has_hang (nd : node) : bool :=
   match n_default nd with BHang => true | _ => false end
-  || existsb (fun ob => match snd ob with BHang => true | _ => false end) (n_over nd).
+  || existsb (fun ob => match snd ob with BHang => true | _ => false end) (n_over nd)
+  || is_none (n_ver1 nd) || is_none (n_ver2 nd).
+
+(* the node is handed the payload as soon as its own version endpoint has answered (the scripted
+   latency n_ver1; at once when that is 0), whatever the other nodes do; nothing is demanded here for
+   a node whose version endpoint never answers *)
+Definition contacted_on_its_own (nd : node) (ocs : list (N * list N)) : bool :=
+  match n_ver1 nd with
+  | Some v => negb (is_nil ocs) && forallb (fun oc => fst oc =? v) ocs
+  | None => true
+  end.
 
 Definition min_of (l : list N) (d : N) : N := fold_right N.min d l.
 
@@ -149,9 +167,10 @@ Definition P_submit (inp : input) (obs : sub_obs) : bool :=
           means left to be answered.  (Giving up a request that is never answered, or any request once
           the timeout has passed, delivers no less: that is left to `agree`.) *)
        && forallb (forallb (fun c => snd c || (T <=? fst c))) (o_cut obs)
-       (* concurrency >= number of nodes: every node is contacted at once, whatever the others do *)
+       (* concurrency >= number of nodes: every node is contacted at once (as soon as it has answered
+          the version request, which is made at once), whatever the others do *)
        && ((i_conc inp <? n)%Z
-           || forallb (fun ocs => negb (is_nil ocs) && forallb (fun oc => fst oc =? 0) ocs) (o_nodes obs))
+           || forall2b contacted_on_its_own nodes (o_nodes obs))
        (* no node hangs: every node is contacted eventually, whatever the concurrency (>= 1) *)
        && (existsb has_hang nodes || (i_conc inp <? 1)%Z
            || forallb (fun ocs => negb (is_nil ocs)) (o_nodes obs))
